@@ -141,12 +141,36 @@ def check_remove_overlapping(ctx):
     # both outcomes of the radius test must remove different droplets (otherwise ties/any case removes the larger one)
     outcomes = {(pol[0], removed) for pol, removed, c in cases if pol is not None}
     if decided_cases == 0:
-        ctx.undecided("GUARDSHAPE", site + ":tie-break", (fi, pops[0]), "no comparison of the two radii decides which droplet is removed")
+        # the size of the two droplets is compared through another attribute?
+        other_attr = None
+        for t_ in [x_ for x_ in ast.walk(wl) if isinstance(x_, ast.Compare) and len(x_.ops) == 1]:
+            l_, r_ = t_.left, t_.comparators[0]
+            if isinstance(l_, ast.Attribute) and isinstance(r_, ast.Attribute) and l_.attr == r_.attr and l_.attr != "radius" and {U(l_.value), U(r_.value)} == {f"self[{x}]", f"self[{y}]"}:
+                other_attr = (t_, l_.attr)
+        if other_attr is not None:
+            ctx.violate("GUARDSHAPE", site + ":tie-break", (fi, other_attr[0]),
+                        f"`{U(other_attr[0])}` decides which droplet of the pair is removed by comparing `.{other_attr[1]}` instead of the radius: for droplets whose {other_attr[1]} is not a monotone "
+                        "function of the radius (perturbed shapes, values that underflow to 0) the droplet with the strictly larger radius can be the one that is removed")
+        else:
+            ctx.undecided("GUARDSHAPE", site + ":tie-break", (fi, pops[0]), "no comparison of the two radii decides which droplet is removed")
     else:
         two_sided = len({r for _, r in outcomes}) == 2
         ctx.decide(ok and two_sided, "GUARDSHAPE", site + ":tie-break", (fi, pops[0]),
                    "when one droplet is strictly larger, the other one is removed: the removed droplet is never strictly larger than its partner",
                    f"removal cases {sorted(set(detail))}: a strictly larger droplet can be removed in favour of a smaller one")
+    # ---- PAIR:stale — any other per-member array that the loop indexes with the pair (x, y) is a third parallel structure: it
+    # must shrink with every pop as well, otherwise its entries belong to other droplets after the first removal
+    stale = []
+    for n_ in ast.walk(wl):
+        if isinstance(n_, ast.Subscript) and isinstance(n_.value, ast.Name) and n_.value.id not in (D, "self") and isinstance(n_.slice, ast.Name) and n_.slice.id in (x, y):
+            nm_ = n_.value.id
+            defs_in = [s_ for s_ in ast.walk(wl) if isinstance(s_, (ast.Assign, ast.AugAssign)) and U(s_.targets[0] if isinstance(s_, ast.Assign) else s_.target) == nm_]
+            shrunk = any("delete" in U(s_) or ".pop(" in U(s_) for s_ in defs_in) or any(isinstance(c_, ast.Call) and U(c_.func) == f"{nm_}.pop" for c_ in ast.walk(wl))
+            if not shrunk:
+                stale.append((n_, nm_))
+    if stale:
+        ctx.violate("PAIR", f"{site}:stale", (fi, stale[0][0]), f"`{U(stale[0][0])}` indexes the per-member array `{stale[0][1]}` (built before the loop) with the indices of the shrinking list/matrix, but the "
+                    "array is never shrunk: after the first removal its entries belong to other droplets, so a later pair can lose its larger member")
     # ---- PAIR: the index popped is the row and the column deleted from the matrix, on the same path
     dels = [s for s in ast.walk(wl) if isinstance(s, ast.Assign) and U(s.targets[0]) == D and "delete" in U(s.value)]
 
@@ -483,6 +507,25 @@ def check_safe_removal(ctx, qual, attr_test, op_types=(ast.LtE,), what="", param
         if lpq_ is not None and U(lpq_[0].iter) in ("self", "enumerate(self)", "iter(self)"):
             ctx.violate(rule, site, (fi, lpq_[0]), f"`{U(mc)[:40]}` removes members while iterating forward over the list itself (`{U(lpq_[0].iter)}`): the member after every removed one is skipped, so adjacent candidates for removal survive")
             return
+    # rebuilt in one go: `self[:] = [x for x in self if KEEP]` keeps the same objects in the same order; KEEP must be the exact
+    # complement of the documented removal condition (attr <= limit): attr > limit
+    rebuild = [s_ for s_ in fv.statements() if isinstance(s_, ast.Assign) and len(s_.targets) == 1 and isinstance(s_.targets[0], ast.Subscript) and U(s_.targets[0]) == "self[:]"
+               and isinstance(s_.value, ast.ListComp) and len(s_.value.generators) == 1 and U(s_.value.generators[0].iter) == "self"]
+    if not pops and len(rebuild) == 1 and ast.LtE in op_types and param is not None:
+        from ..astutil import canon_tests as _ct
+
+        g_ = rebuild[0].value.generators[0]
+        var_ = U(g_.target)
+        keep = set()
+        for t_ in g_.ifs:
+            keep.update(_ct(t_, True))
+        want_keep = {(f"{param} < {var_}.{attr_test}", True)}
+        alt_keep = {(f"{var_}.{attr_test} <= {param}", False)}  # `not x.attr <= limit` (differs for NaN, which the popping loop keeps as well)
+        same_elt = U(rebuild[0].value.elt) == var_
+        ctx.decide(same_elt and keep in (want_keep, alt_keep), rule, site, (fi, rebuild[0]), f"members are kept iff not ({what})",
+                   f"the list is rebuilt keeping members with {sorted(keep)}: that is not the complement of the documented removal condition `{what}` (members exactly at the limit are "
+                   "kept although they must be removed, or the other way round)")
+        return
     if others or len(pops) != 1:
         # a different (e.g. comprehension based) implementation: not judged by this rule
         if others:
